@@ -170,7 +170,8 @@ def classify(ob, job):
     # contract instrumentation obligations of goto-instrument --dfcc
     if re.search(r"Check (ensures|requires|that .* is assignable|loop invariant|variant|invariant|decreases)", desc, re.I) or \
        re.search(r"(postcondition|precondition|assigns|loop_invariant|loop_decreases|loop_assigns|loop_step_unwinding)", name):
-        in_repo_or_contract = True
+        if re.search(r"is assignable", desc) and not os.path.basename(f).startswith("gen."):
+            return "internal", []      # a ghost variable of the harness is missing from a loop frame: a specification gap, never a violation
         return "contract", [p for p in job["props"] if p not in ("C02",)] or job["props"]
     if ".overflow." in name and "type conversion" in desc:
         # --conversion-check: only float -> integer conversions are undefined behaviour ([conv.fpint]); integer narrowing is
@@ -657,7 +658,7 @@ def run_and_report(prop, tier, targets, jobs, t0, extra_cov=None, extra_assumpti
                         n_ob += 1; n_ok += 1; jn += 1; jd += 1      # a known-finding obligation that holds (finding fixed / regression guard) is an ordinary discharged obligation
                     if ob["status"] == "FAILURE":
                         ent = kf.get(kid)
-                        if ent and ent.get("status") == "open" and ent.get("property") == prop:
+                        if ent and ent.get("status") == "open" and (ent.get("property") == prop or prop in ent.get("also_reported_under", [])):
                             known.append({"id": kid, "job": job["id"], "what": ent.get("what", ob["desc"])})
                         else:
                             violations.append((job, ob))
